@@ -29,6 +29,33 @@ def direct_rater(reg, ts, names, lda):
     return IndentationRater(regressor=cl(**copy.deepcopy(kw)), training_set=ts, names=names, lda=lda)
 
 
+def read_training_dir(path, names=None):
+    """a training-set directory read WITHOUT the library's loader, cleaned as documented: a NaN feature of a
+    zero-rated sample becomes the mean of that feature over the zero-rated samples that have a number there; samples
+    that still hold a NaN are dropped; infinities become plus / minus twice the largest finite magnitude of their
+    feature (the statement C15 proves of the loader's model)"""
+    import pathlib
+    from nanite.rate import IndentationRater
+    path = pathlib.Path(path)
+    cont = IndentationRater.get_feature_names(which_type=["continuous"], names=names)
+    X = np.array([np.loadtxt(path / f"train_{n}.txt", dtype=float, ndmin=1) for n in cont]).T
+    y = np.loadtxt(path / "train_response.txt", dtype=float, ndmin=1)
+    X = X.reshape(len(y), len(cont)).copy()
+    zero = y == 0
+    for j in range(X.shape[1]):
+        nan = np.isnan(X[:, j])
+        if np.any(zero & nan) and np.any(zero & ~nan):
+            with np.errstate(all="ignore"):
+                X[zero & nan, j] = np.mean(X[zero & ~nan, j])
+    keep = ~np.isnan(X).any(axis=1)
+    X, y = X[keep], y[keep]
+    for j in range(X.shape[1]):
+        inf = np.isinf(X[:, j])
+        if inf.any() and (~inf).any():
+            X[inf, j] = np.sign(X[inf, j]) * 2 * np.max(np.abs(X[~inf, j]))
+    return X, y
+
+
 def sklearn_reference(reg, ts, lda, idnt, names=None):
     """the rating recomputed without IndentationRater: scikit-learn pipeline built from the documented rules
     (tree-based regressors: no scaler, no LDA by default; others: scaler, LDA unless lda is False), regressor class and
@@ -44,7 +71,7 @@ def sklearn_reference(reg, ts, lda, idnt, names=None):
         # a training set given by label / directory: loaded with the public loader for the selected features
         from nanite.rate import IndentationRater
         path = IndentationRater.get_training_set_path(label=ts) if ts in nrater.get_available_training_sets() else ts
-        ts = IndentationRater.load_training_set(path=path, names=names)
+        ts = read_training_dir(path, names)
     X, y = np.array(ts[0], dtype=float), np.array(ts[1], dtype=float)
     cl, kw = nrater.reg_dict[reg]
     tree = cl.__name__ in regressors.reg_trees
@@ -300,6 +327,56 @@ def run(ctx):
                 ctx.violation("rating-ignores-rewritten-training-set",
                               f"user training-set directory rewritten at the same path: rate_quality gives {a!r}, a rater "
                               f"built directly from the directory as it is now gives {c2!r}", {"input": meta})
+        # user directories whose files hold NaN and infinite entries (cleaned on loading as documented), and a user
+        # directory that merely carries the NAME of a shipped training set: the rating must be the one of the
+        # documented pipeline trained on the directory's own, cleaned, contents
+        g = np.random.default_rng(ctx.seed + 77)
+        dirs = []
+        for dname, sl in (("dirty", slice(0, None, 5)), ("named/zef18", slice(2, None, 6))):
+            d = tdir / dname
+            d.mkdir(parents=True)
+            Xd, yd = X[sl].copy(), y[sl].copy()
+            if dname == "dirty":
+                rows = g.choice(len(yd), size=min(24, len(yd)), replace=False)
+                for r in rows[:10]:
+                    # plus and minus infinity in two different features of one sample
+                    j1, j2 = g.choice(Xd.shape[1], size=2, replace=False)
+                    Xd[r, j1], Xd[r, j2] = np.inf, -np.inf
+                for r in rows[10:14]:
+                    Xd[r, g.integers(Xd.shape[1])] = np.inf * g.choice([-1, 1])
+                zero_rows = np.where(yd == 0)[0]
+                for r in zero_rows[:6]:
+                    Xd[r, g.integers(Xd.shape[1])] = np.nan          # zero-rated, NaN in varying features
+                for r in rows[14:18]:
+                    Xd[r, g.integers(Xd.shape[1])] = np.nan
+            else:
+                yd = np.round(10 - yd)                                # unlike the shipped set of that name
+            for j, n in enumerate(names):
+                np.savetxt(d / f"train_{n}.txt", Xd[:, j])
+            np.savetxt(d / "train_response.txt", yd)
+            dirs.append((dname, d))
+        for dname, d in dirs:
+            for reg in (["Extra Trees", "Decision Tree"] if ctx.tier == "quick" else
+                        ["Extra Trees", "Decision Tree", "Random Forest", "SVR (linear kernel)"]):
+                for given in ("str", "Path"):
+                    meta = {"oracle": "user-directory-contents", "directory": dname, "regressor": reg, "given_as": given}
+                    ctx.case(meta, nontrivial=json.dumps(meta), bucket="stream=training-set-values")
+                    with warnings.catch_warnings():
+                        warnings.simplefilter("ignore")
+                        w_ = dict(state_classes(2))["fitted"]
+                        try:
+                            a = w_.rate_quality(regressor=reg, training_set=str(d) if given == "str" else d)
+                        except BaseException as e:  # noqa
+                            ctx.violation(f"rate-quality-raises:user-directory:{type(e).__name__}",
+                                          f"rate_quality raised {e!r} for the user directory '{dname}'", {"input": meta})
+                            continue
+                        ref = sklearn_reference(reg, str(d), None, w_)
+                    if ref is not None and abs(ref - a) > 1e-9 * max(1.0, abs(ref)):
+                        ctx.violation("user-directory-differs-from-reference",
+                                      f"rate_quality({reg}, training_set=<directory '{dname}'>) gives {a!r}; the "
+                                      "documented pipeline trained with scikit-learn on the directory's own contents "
+                                      f"(read and cleaned independently) gives {ref!r}",
+                                      {"input": meta, "expected": ref, "observed": a})
         # the order in which feature names are listed is immaterial (training columns and the curve's sample
         # must be paired by name), for training sets read from disk
         allc = IndentationRater.get_feature_names(which_type=["continuous"])
